@@ -36,9 +36,9 @@ type Value struct {
 	S         string
 	Elems     []Value
 	Keys      []string
-	Unordered bool // VObj derived from a Go map: member order is not significant
+	Unordered bool   // VObj derived from a Go map: member order is not significant
 	Opt       []bool // VObj (reference side only): member i may be present or absent
-	Len       int  // announced length
+	Len       int    // announced length
 	BT        structform.BaseType
 
 	outOfRange bool // reference JSON decoder: literal may be rejected/widened by the library
@@ -306,8 +306,10 @@ func Equal(want, got Value, m Mode) bool {
 	return false
 }
 
-func f32bits(f float32) uint32 { return math.Float32bits(f) }
-func f64bits(f float64) uint64 { return math.Float64bits(f) }
+func f32frombits(b uint32) float32 { return math.Float32frombits(b) }
+func f64frombits(b uint64) float64 { return math.Float64frombits(b) }
+func f32bits(f float32) uint32     { return math.Float32bits(f) }
+func f64bits(f float64) uint64     { return math.Float64bits(f) }
 
 func validKeys(ks []string) []string {
 	out := make([]string, len(ks))
